@@ -82,6 +82,47 @@ def exception_cover(ctx, rule='A9'):
            'the distance-correlation measurement tolerates TimeoutError and MemoryError (the score stays NaN)', '')
 
 
+def fresh_imputer_per_encoder(ctx, rule='A24'):
+    """An imputer is bound to one encoder by initialize(): every candidate encoder created in the selection loop
+    receives an imputer created in the same iteration."""
+    sel = ctx.fn(f'{SEL}._get_best_assignment_manager')
+    cm = sel.nested['_create_managers']
+    cfg = build_cfg(cm)
+    loops = [n for n in cfg.nodes if n.kind == 'for' and 'encoders' in norm(n.ast.iter)]
+    if not loops:
+        raise AnalysisError('_create_managers: candidate loop not found')
+    lp = loops[0]
+    fvar = norm(lp.ast.target)
+    sites = [c for c in ast.walk(lp.ast) if isinstance(c, ast.Call) and norm(c.func) == fvar]
+    if not sites:
+        raise AnalysisError('_create_managers: encoder factory call not found')
+    from ..cfg import build_rd
+    rd = build_rd(cm)
+    body_ids = cfg.reachable([m for m, lab in lp.succ if lab == 'T'], blocked_nodes=[lp])
+    for c in sites:
+        arg = c.args[0] if c.args else None
+        ok = isinstance(arg, ast.Call)
+        detail = short(c)
+        if isinstance(arg, ast.Name):
+            node = [n for n in cfg.nodes if n.ast is not None and any(x is c for x in ast.walk(n.ast))][0]
+            defs = rd.defs_of(arg.id, node)
+            ok = bool(defs) and all(d.id in body_ids and d.kind == 'stmt' and isinstance(d.ast, ast.Assign) and
+                                    isinstance(d.ast.value, ast.Call) for d in defs)
+            detail += f'; `{arg.id}` defined at ' + ', '.join(f'L{d.lineno}' for d in defs)
+        ctx.ob(rule, fkey(cm, rule, 'imputer-created-per-candidate'), ok, f'{cm.module.relpath}:{c.lineno}',
+               'each candidate encoder gets its own imputer instance, created in the same loop iteration (an '
+               'imputer shared between candidates is re-initialised by the last one and repairs vectors with the '
+               'wrong tables)', detail)
+    # same discipline where an encoder is re-bound to another imputer
+    for key in (f'{ENC}:EagerEncoder.get_for_imputer', f'{LAZY}:LazyEncoder.get_for_imputer'):
+        f = ctx.fn(key)
+        t = ' '.join(norm(x) for x in f.body)
+        ok = 'copy.deepcopy(self)' in t and 'set_imputer(imputer)' in t
+        ctx.ob(rule, fkey(f, rule, 'rebinding-copies-encoder'), ok, f.where,
+               'binding an encoder to another imputer works on a deep copy of the encoder (the original keeps its '
+               'own imputer)', '')
+
+
 def view_write(ctx, rule='A20'):
     n = 0
     for fn in ctx.prog.all_functions():
@@ -278,6 +319,7 @@ def shortcuts(ctx, rule='A5'):
 
 def check(ctx):
     exception_cover(ctx)
+    fresh_imputer_per_encoder(ctx)
     view_write(ctx)
     cache_keys(ctx)
     pickle_caches(ctx)
